@@ -617,7 +617,8 @@ class CollapseAmbiguities(Transformer):
         return sum(options, [])
 
     def __default__(self, data, children_lists, meta):
-        return [Tree(data, children, meta) for children in combine_alternatives(children_lists)]
+        children_lists = [c if isinstance(c, list) else [c] for c in children_lists]   # e.g. None placeholders
+        return [Tree(data, list(children), meta) for children in combine_alternatives(children_lists)]
 
     def __default_token__(self, t):
         return [t]
